@@ -270,6 +270,9 @@ def main(argv=None):
                     undecided.append('%s#%s: loop contract no longer matches the code (obligation refuted), but the bounded stand-in %s '
                                      'decides the clauses without it and passes' % (hn, r['name'], ', '.join(fb)))
     violations = [(h, r) for h, r in violations if h.name not in demoted]
+    extras = {}
+    if a.tier == 'thorough' and not a.only:
+        extras = thorough_extras(a.prop, seed, crashes)
     status = 0
     lines = []
     for kl in sorted(set(known_lines)):
@@ -299,12 +302,43 @@ def main(argv=None):
             print('  ', ph)
     if not a.no_evidence and not a.only:
         write_evidence(a, hs, n_obl, n_dis, n_known, violations, undecided, crashes, samples, by_backend, solver_time,
-                       functions, files, dropped, per_harness, wall, seed, known_lines, vio_docs, n_bounded, n_bounded_ok)
+                       functions, files, dropped, per_harness, wall, seed, known_lines, vio_docs, n_bounded, n_bounded_ok, extras)
     return status
 
 
+def thorough_extras(prop, seed, crashes):
+    """Thorough tier only: guards of the trusted base and of the contracts' sensitivity (never deciding a property).
+    (a) CPython differential: real functions on concrete inputs, engine vs /venv/bin/python, both codec back ends;
+    (b) mutation canaries: a seeded sample of source mutants recorded as killed must still be killed by this property's
+        harnesses.  A disagreement / surviving canary is a checker error (exit 3), not a violation."""
+    out = {}
+    env = dict(os.environ, VERIF_SEED=str(seed))
+    tmp = tempfile.mkdtemp(prefix='pyvc_thorough_')
+    try:
+        j = os.path.join(tmp, 'diff.json')
+        p = subprocess.run([sys.executable, '-m', 'pyvc.differential', '--n', '12', '--json', j], cwd=ROOT, env=env,
+                           capture_output=True, text=True, timeout=1800)
+        d = json.load(open(j)) if os.path.exists(j) else {}
+        out['cpython_differential'] = dict(exit=p.returncode, scenario_runs=d.get('runs'), kinds=d.get('kinds'),
+                                           disagreements=len(d.get('disagreements', [])) if d else None,
+                                           summary=(p.stdout.strip().splitlines() or [''])[0][:200])
+        if p.returncode != 0:
+            crashes.append('CPython differential: ' + (p.stdout + p.stderr)[-800:])
+        p = subprocess.run([sys.executable, '-m', 'pyvc.mutants', 'canaries', '--props', prop, '--n', '16'], cwd=ROOT, env=env,
+                           capture_output=True, text=True, timeout=3600)
+        out['mutation_canaries'] = dict(exit=p.returncode, summary=[l for l in p.stdout.splitlines() if l.startswith(('canaries', 'SURVIVING', 'no mutation'))][:10])
+        if p.returncode != 0:
+            crashes.append('mutation canaries: ' + (p.stdout + p.stderr)[-800:])
+    except Exception as ex:     # pragma: no cover
+        crashes.append('thorough extras failed: %r' % ex)
+    finally:
+        import shutil
+        shutil.rmtree(tmp, ignore_errors=True)
+    return out
+
+
 def write_evidence(a, hs, n_obl, n_dis, n_known, violations, undecided, crashes, samples, by_backend, solver_time,
-                   functions, files, dropped, per_harness, wall, seed, known_lines, vio_docs, n_bounded=0, n_bounded_ok=0):
+                   functions, files, dropped, per_harness, wall, seed, known_lines, vio_docs, n_bounded=0, n_bounded_ok=0, extras=None):
     man = json.load(open(os.path.join(ROOT, 'MANIFEST.json')))
     level = 'proof'
     note = ''
@@ -337,7 +371,7 @@ def write_evidence(a, hs, n_obl, n_dis, n_known, violations, undecided, crashes,
             by_backend=by_backend, solver_time_s=round(solver_time, 2),
             functions_under_contract=sorted(functions), function_ast_hashes=functions, source_sha256=files,
             harnesses=per_harness, bounded_standins=bounded, bounded_obligations=n_bounded, bounded_passed=n_bounded_ok, undecided=undecided[:50], checker_errors=crashes[:10],
-            known_findings_reported=sorted(set(known_lines)), violations=vio_docs,
+            known_findings_reported=sorted(set(known_lines)), violations=vio_docs, thorough_extras=extras or {},
         ),
         assumptions=assumptions, wall_s=round(wall, 2), violations=len(violations))
     os.makedirs(os.path.join(ROOT, 'evidence'), exist_ok=True)
